@@ -607,6 +607,27 @@ def expr_suite(c, which="rank1_vector", pts="interior", npts=5):
 
 
 @builder
+def expr_dropped(c, which=0):
+    """Expressions in which UFL's preprocessing eliminates a coefficient (or constant) that was created BEFORE one that
+    survives: original_coefficient_positions / constant offsets must still refer to the expression the user passed."""
+    D0 = c.V("DG", 0)
+    V = c.V("Lagrange", 1)
+    f0 = Coefficient(D0)
+    k0 = Constant(c.mesh)
+    g = Coefficient(V)
+    h = Coefficient(V)
+    k1 = Constant(c.mesh)
+    x = c.x
+    u = TrialFunction(V)
+    e = {0: lambda: g * (x[0] ** 2 + f0).dx(0),                      # f0 only under a derivative
+         1: lambda: h * (f0 + x[0]).dx(0) + g * (1 + h),               # first of three dropped
+         2: lambda: k1 * g * (x[0] ** 2 + k0).dx(0),                   # a constant dropped before a used one
+         3: lambda: u * h * (f0 * f0 + x[0]).dx(0) + u * g,            # rank 1
+         4: lambda: ufl.as_vector([g * (f0 + x[0]).dx(0), h * k1])}[which]()
+    return (e, _ref_points(c.cell, "interior", 4))
+
+
+@builder
 def expr_facet(c, which="normal"):
     V = c.V("Lagrange", 2)
     f = Coefficient(V)
